@@ -84,7 +84,11 @@ func genTwinBook(r *rand.Rand, allowKnown bool) twinBook {
 	b := bookSpec{Name: "Fuzz"}
 	for si, n := 0, 1+r.Intn(2); si < n; si++ {
 		name := []string{"HeroConf", "ItemConf", "ZoneConf"}[si]
-		gs := g.sheet(name, 1+r.Intn(5), r.Intn(7))
+		nf := 1 + r.Intn(5)
+		if r.Intn(4) == 0 {
+			nf = 6 + r.Intn(4) // more columns than the importers' schema window of 10 lines (matters when transposed)
+		}
+		gs := g.sheet(name, nf, r.Intn(7))
 		meta := map[string]string{}
 		if r.Intn(5) == 0 {
 			meta["OrderedMap"] = "true"
@@ -149,6 +153,11 @@ func genTwinBook(r *rand.Rand, allowKnown bool) twinBook {
 				row[r.Intn(len(row))] = fuzzJunk[r.Intn(len(fuzzJunk))]
 				rows[k] = row
 			}
+		}
+		// the whole sheet transposed (fields run down the rows): both containers must read every field row
+		if _, relocated := meta["Namerow"]; !relocated && !tb.wide && r.Intn(5) == 0 {
+			rows = transposeRows(rows)
+			meta["Transpose"] = "true"
 		}
 		gs.spec.Rows = rows
 		gs.spec.Meta = meta
@@ -252,6 +261,15 @@ func init() {
 		csv := runTwin(tb, "csv")
 		xs := runTwin(tb, "xlsx-str")
 		if d := compareTwin(csv, xs, "csv/xlsx-str"); d != "" {
+			if os.Getenv("VERIF_DEBUG") != "" {
+				println(debugBook(tb.book))
+				for k, v := range csv.confs {
+					if strings.HasSuffix(k, ".json") && v != xs.confs[k] {
+						println("CSV ", k, v)
+						println("XLSX", k, xs.confs[k])
+					}
+				}
+			}
 			return "differ " + d
 		}
 		return "same ok"
@@ -275,6 +293,15 @@ func init() {
 			status = "conferr"
 		}
 		if d := compareTwin(csv, xs, "csv/xlsx-str"); d != "" {
+			if os.Getenv("VERIF_DEBUG") != "" {
+				println(debugBook(tb.book))
+				for k, v := range csv.confs {
+					if strings.HasSuffix(k, ".json") && v != xs.confs[k] {
+						println("CSV ", k, v)
+						println("XLSX", k, xs.confs[k])
+					}
+				}
+			}
 			return "differ " + d
 		}
 		if d := compareTwin(cn, xn, "csv-of-xlsx-num/xlsx-num"); d != "" {
